@@ -30,6 +30,17 @@ func outcomesAfter(info *types.Info, body *ast.BlockStmt, from ast.Node, assume 
 	return outcomesWalk(info, body, nil, false, from, assume, avoid)
 }
 
+// outcomesWithout: every place a path from the entry of body can end without having passed the node that holds stop
+// (bool locals carried along, conditions decided where they can be).
+func outcomesWithout(info *types.Info, body *ast.BlockStmt, stop ast.Node) (out []truthOutcome, ok bool) {
+	walkStop = stop
+	defer func() { walkStop = nil }()
+	out, _, ok = outcomesWalk(info, body, nil, false, body, nil, nil)
+	return out, ok
+}
+
+var walkStop ast.Node
+
 func outcomesWalk(info *types.Info, body *ast.BlockStmt, atom ast.Expr, val bool, from ast.Node, assume map[types.Object]bool, avoid ast.Node) (out []truthOutcome, reached bool, ok bool) {
 	g := cfg.New(body, func(*ast.CallExpr) bool { return true })
 	contains := func(root, t ast.Node) bool {
@@ -114,6 +125,9 @@ func outcomesWalk(info *types.Info, body *ast.BlockStmt, atom ast.Expr, val bool
 			}
 		}
 	}
+	if from == ast.Node(body) && len(g.Blocks) > 0 {
+		sb, si = g.Blocks[0], 0
+	}
 	if sb == nil {
 		return nil, false, false
 	}
@@ -154,6 +168,9 @@ func outcomesWalk(info *types.Info, body *ast.BlockStmt, atom ast.Expr, val bool
 		for ; i < len(b.Nodes); i++ {
 			if avoid != nil && contains(b.Nodes[i], avoid) {
 				reached = true
+			}
+			if walkStop != nil && contains(b.Nodes[i], walkStop) {
+				return
 			}
 			switch x := b.Nodes[i].(type) {
 			case *ast.ReturnStmt:
